@@ -240,12 +240,15 @@ FRAG_POOL = {
     "UF": "fragment UF on User { bestFriend { ...UA } pet { barks } }",
     "Aaa": "fragment Aaa on User { ...UE ...UF }",
     "ZU": "fragment ZU on User { score }",
+    "AF": "fragment AF on User { bestFriend { ...UB } }",
+    "AG": "fragment AG on User { friends { ...ZU pet { ...ZD } } }",
+    "ZD": "fragment ZD on Dog { barks }",
 }
 FRAG_OPS = [
     "user { ...UA }", "user { ...UB }", "me { ...UC }", "user { ...UD }", "users { ...UE }", "node { ...NA }", "node { ...NB }",
     "node { ...UA }", "user { ...NA }", "named { ...MA ...NA }", "things { ...TA }", "user { ...UI }", "node { ...BA }", "user { ...UF }",
     "user { ...Aaa }", "user { bestFriend { ...UA } friends { ...UB } }", "user { id ...UA name }", "nodes { ...NA ... on User { ...UA } }",
-    "me { ...ZU ...UA }", "thing { ... on User { ...UE } }", "user { ...UA @include(if: true) }",
+    "me { ...ZU ...UA }", "thing { ... on User { ...UE } }", "user { ...UA @include(if: true) }", "user { ...AF }", "me { ...AG }", "users { ...AF ...AG }",
 ]
 
 
